@@ -231,7 +231,7 @@ Proof.
   unfold load, gat.
   rewrite (nth_map_in (fun i => cr * (INR i * dt)) (seq 0 n) i 0 0%nat) by (rewrite seq_length; lia).
   rewrite (nth_map_in (fun i => cr * (INR i * dt)) (seq 0 n) (S i) 0 0%nat) by (rewrite seq_length; lia).
-  rewrite !seq_nth by lia. cbn [plus]. rewrite S_INR. field. lra.
+  rewrite !seq_nth by lia. rewrite !Nat.add_0_l, S_INR. field. lra.
 Qed.
 End Exact.
 
@@ -253,14 +253,14 @@ Lemma row_lengths (c : coeffs R) xi w (rec : list R) :
 Proof. unfold row; cbn [fst snd]. now rewrite !map_length, nj_series_length. Qed.
 
 Lemma leading_zero_response (cfs : list (coeffs R)) c2pi xi ps (rec : list R) :
-  response_with cfs c2pi xi (0 :: ps) rec = zero_row rec :: response_with cfs c2pi xi ps rec
-  \/ (exists p0 ps', ps = p0 :: ps' /\ p0 = 0) \/ ps = [] /\ response_with cfs c2pi xi (0 :: ps) rec = [zero_row rec].
+  response_with cfs c2pi xi (0 :: ps) rec = zero_row rec :: map2 (fun c P => row c xi (w_of c2pi P) rec) cfs ps.
+Proof. unfold response_with, leading_zero, osc_periods. numR. case_Reqb 0 0; [reflexivity | lra]. Qed.
+
+Lemma no_leading_zero_response (cfs : list (coeffs R)) c2pi xi ps (rec : list R) : hd 1 ps <> 0 ->
+  response_with cfs c2pi xi ps rec = map2 (fun c P => row c xi (w_of c2pi P) rec) cfs ps.
 Proof.
-  destruct ps as [|p0 ps']; [right; right; split; [reflexivity|] |].
-  - unfold response_with, leading_zero, osc_periods. numR. case_Reqb 0 0; [|lra]. destruct cfs; reflexivity.
-  - case_Reqb p0 0; [right; left; eauto|]. left.
-    unfold response_with at 1, leading_zero, osc_periods. numR. case_Reqb 0 0; [|lra].
-    unfold response_with, leading_zero, osc_periods. numR. rewrite Heq. reflexivity.
+  intros Hp. unfold response_with, leading_zero, osc_periods. destruct ps as [|p0 ps']; [reflexivity|].
+  cbn [hd] in Hp. numR. case_Reqb p0 0; [contradiction | reflexivity].
 Qed.
 
 Lemma zero_row_spec (rec : list R) i : (i < length rec)%nat ->
